@@ -54,6 +54,11 @@ class Monitors:
             orig_uc = LT.update_code
             def update_code(file_path, new_code):
                 tr.count("update_code")
+                for f in (cfg.get("faults") or []):
+                    # the write itself fails (read-only file, full disk): injected at the hook, so it does not depend on the OS or on being root
+                    if f.get("kind") == "write_error" and Path(file_path).name == f.get("file"):
+                        tr.emit("fault", kind="write_error", path=str(file_path), cm=mon.current_codemod)
+                        raise PermissionError(13, "Permission denied (injected)", str(file_path))
                 try: before = Path(file_path).read_bytes()
                 except OSError: before = None
                 r = orig_uc(file_path, new_code)
